@@ -285,3 +285,39 @@ func (g *Aliased) Sum() int {
 	}
 	return n
 }
+
+// BadChanVarReassigned: each goroutine reads the channel variable the loop reassigns.
+func BadChanVarReassigned(names []string) {
+	var cur chan int
+	var wg sync.WaitGroup
+	for range names {
+		cur = make(chan int, 1)
+		wg.Add(1)
+		go func() {
+			defer wg.Done()
+			for range cur {
+			}
+		}()
+		cur <- 1
+		close(cur)
+	}
+	wg.Wait()
+}
+
+// OkChanArgPassed: the channel is handed to the goroutine by value.
+func OkChanArgPassed(names []string) {
+	var cur chan int
+	var wg sync.WaitGroup
+	for range names {
+		cur = make(chan int, 1)
+		wg.Add(1)
+		go func(c chan int) {
+			defer wg.Done()
+			for range c {
+			}
+		}(cur)
+		cur <- 1
+		close(cur)
+	}
+	wg.Wait()
+}
